@@ -182,16 +182,30 @@ func (dec *Decimal) String() string {
 // Set decimal to the passed string value.
 // Precision and scale are untouched.
 //
+// An error is returned if s is not a decimal number or if its value
+// cannot be stored with the precision and scale of dec, i.e. it has
+// fractional digits other than zero beyond the scale or more digits than
+// the precision.
+//
 // If an error is returned dec is untouched.
 func (dec *Decimal) SetString(s string) error {
 	// Trim spaces to avoid errors with "+0.0 " etc.pp.
 	s = strings.TrimSpace(s)
 
 	split := strings.Split(s, ".")
+	if len(split) > 2 {
+		return fmt.Errorf("failed to parse number %s: more than one decimal point", s)
+	}
 	left := split[0]
 	right := ""
 	if len(split) > 1 {
 		right = split[1]
+	}
+
+	// A sign is only valid in front of the number, big.Int.SetString
+	// would also accept it in front of the fraction if left is empty.
+	if strings.ContainsAny(right, "+-") {
+		return fmt.Errorf("failed to parse number %s: sign in fraction", s)
 	}
 
 	// Set underlying big.Int structure to the whole number
@@ -200,11 +214,29 @@ func (dec *Decimal) SetString(s string) error {
 		return fmt.Errorf("failed to parse number %s%s", left, right)
 	}
 
-	// Multiply underlying big.Int to fit to the scale of the decimal
-	if dec.Scale-len(right) > 0 {
+	// Multiply or divide underlying big.Int to fit to the scale of the
+	// decimal. Fractional digits beyond the scale can only be dropped
+	// if they are zero, otherwise the value would change.
+	if diff := dec.Scale - len(right); diff != 0 {
 		mul := big.NewInt(10)
-		mul.Exp(mul, big.NewInt(int64(dec.Scale-len(right))), nil)
-		i.Mul(i, mul)
+		if diff > 0 {
+			mul.Exp(mul, big.NewInt(int64(diff)), nil)
+			i.Mul(i, mul)
+		} else {
+			mul.Exp(mul, big.NewInt(int64(-diff)), nil)
+			rem := &big.Int{}
+			i.QuoRem(i, mul, rem)
+			if rem.Sign() != 0 {
+				return fmt.Errorf("number %s has more than %d fractional digits", s, dec.Scale)
+			}
+		}
+	}
+
+	// The value must not have more digits than the precision
+	limit := big.NewInt(10)
+	limit.Exp(limit, big.NewInt(int64(dec.Precision)), nil)
+	if i.CmpAbs(limit) >= 0 {
+		return fmt.Errorf("number %s has more than %d digits at scale %d", s, dec.Precision, dec.Scale)
 	}
 
 	dec.i = i
